@@ -16,7 +16,9 @@ from harness.core import Case, ImplResult, close
 PID = 'C14'
 LEAN_MODULES = ['ThermoVerif.Props.C14']
 RULE = ('histories (≤40 ops) of property reads interleaved with mutators (T, P, H and S setters, phase, phases, flow edits, moving a whole phase, scale, '
-        'empty, mix, link, unlink, property-package reset, writes through phase views / linked streams / proxies) '
+        'empty, mix, copy_like, copy_flow, copy_thermal_condition, split_to, vle, mass-view and total-flow writes, smallest '
+        'nudges of T / P / one flow, link, unlink, property-package reset and copy(thermo=) incl. another mixture over the same '
+        'chemicals object, writes through phase views / linked streams / proxies) '
         'on 1–3 real streams; non-trivial = at least one memo hit and one state change between reads; '
         'distinct = distinct op sequences')
 ASSUMPTIONS = [
@@ -25,6 +27,13 @@ ASSUMPTIONS = [
     'the adapter numbers keys by exact equality of (nophase, phase(s), T, P, composition dict)',
     'model mutator table (which public mutators call reset_cache) mirrors the code: unlink, '
     'MultiStream.phases=<different set>, _reset_thermo(<other package>)',
+    'the property package is explicit model state: every read line carries the package the real object computed with and '
+    'must equal the model object\'s package',
+    'a read that raises is judged against a fresh stream in the same state (raises there too = the models reject the state)',
+    'reads on objects whose package and flow indexer are out of step (proxy / flow-linked partner changed package; DESIGN '
+    '§12.7 C12-8) are skipped and tagged; links across different packages are not generated',
+    'a history ends at a mutator the library rejects after it may have run partly (tagged history:cut-at:*); rejections '
+    'that are known to precede any mutation (class mismatch of link, phase set dropping a non-empty phase) are skipped',
 ]
 TRUSTED = ['Lean 4.33 kernel', 'harness/props/c14.py + Driver/C14.lean', 'generator reach (see histogram)']
 
@@ -35,6 +44,8 @@ ATTRS_SINGLE = ['H', 'S', 'C', 'h', 'V', 'kappa', 'Cn', 'mu', 'sigma', 'epsilon'
 ATTRS_MULTI = ['H', 'S', 'C', 'h', 'V', 'kappa', 'Cn', 'mu', 'sigma', 'epsilon', 'Cp', 'rho', 'Hvap', 'F_vol']
 NAMES = ['H', 'S', 'Cn', 'V', 'mu', 'kappa', 'sigma', 'epsilon', 'Hvap']
 _REC = None          # active recorder
+_ILL = []            # reads skipped because package and indexer are out of step
+_TRUNC = []          # where the last history was cut short (an operation the library rejected)
 _COUNT = [0]
 
 
@@ -43,6 +54,14 @@ def setup():
     import thermosteam as tmo_
     tmo = tmo_
     warnings.simplefilter('ignore')
+    # `dew_point.gamma_iter` is `@njit(cache=True)` and takes a numba dispatcher as argument: saving its specialisation
+    # to the on-disk cache index raises `ReferenceError: underlying object has vanished`.  Keep it out of the disk cache.
+    try:
+        from numba.core.caching import NullCache
+        from thermosteam.equilibrium import dew_point as _dpm
+        _dpm.gamma_iter._cache = NullCache()
+    except Exception:
+        pass
     chems = tmo.Chemicals(['Water', 'Ethanol', 'Methanol', 'Glycerol'], cache=True)
     t1 = tmo.Thermo(chems, cache=False)
     chems2 = tmo.Chemicals(['Ethanol', 'Water', 'Glycerol', 'Methanol', 'Propanol'], cache=True)
@@ -110,6 +129,14 @@ def budget(tier):
             'thorough': dict(seconds=480, cases=60000, shrink_s=40, search_s=30)}[tier]
 
 
+def pkg_id(th):
+    """number of a property package object (its place in THERMOS)"""
+    for i, t in enumerate(THERMOS):
+        if t is th: return i
+    THERMOS.append(th)
+    return len(THERMOS) - 1
+
+
 def state_key(s, nophase):
     """canonical key of the observable state, computed through the public API"""
     data = s.imol.data
@@ -139,7 +166,7 @@ class Recorder:
             self.lines.append((f'readempty {oid}', 'none'))
         else:
             kid = w.keys.setdefault(k, len(w.keys))
-            self.lines.append((f'read {oid} {name} {kid}', 'miss' if miss else 'hit'))
+            self.lines.append((f'read {oid} {name} {kid}', ('miss' if miss else 'hit') + f' p{pkg_id(obj.thermo)}'))
 
 
 def _failed(self, obj, k):
@@ -185,7 +212,9 @@ def fresh_like(s):
 
 def same(a, b):
     if a is None or b is None: return a is None and b is None
-    return close(float(a), float(b), rtol=1e-9, atol=1e-9)
+    a, b = float(a), float(b)
+    # relative only: transport properties are as small as 1e-6 (an absolute 1e-9 would hide 0.1 % staleness there)
+    return a == b or abs(a - b) <= 1e-9 * max(abs(a), abs(b))
 
 
 def run_ops(ops):
@@ -193,6 +222,8 @@ def run_ops(ops):
     w = World()
     model_in, outs, failures = [], [], []
     hits = changes = 0
+    trunc = _TRUNC; trunc.clear()
+    illformed = _ILL; illformed.clear()
     def emit(line, ans):
         model_in.append(line); outs.append(ans)
     for i, line in enumerate(ops):
@@ -211,13 +242,13 @@ def run_ops(ops):
                     n = len(th.chemicals)
                     for j, ph in enumerate(s.phases):
                         s.imol[ph] = [flows[(j * n + c) % len(flows)] * (1 if (j + c) % 2 == 0 else 0.5) for c in range(n)]
-                w.add(s, 'plain'); emit('new', f'ok {len(w.objs) - 1}')
+                w.add(s, 'plain'); emit(f'new {pkg_id(s.thermo)}', f'ok {len(w.objs) - 1}')
             elif op == 'copy':
-                w.add(w.objs[int(t[1])].copy(), 'copy'); emit('new', f'ok {len(w.objs) - 1}')
+                w.add(w.objs[int(t[1])].copy(), 'copy'); emit(f'new {pkg_id(w.objs[-1].thermo)}', f'ok {len(w.objs) - 1}')
             elif op == 'copythermo':
-                w.add(w.objs[int(t[1])].copy(thermo=THERMOS[int(t[2])]), 'copy'); emit('new', f'ok {len(w.objs) - 1}')
+                w.add(w.objs[int(t[1])].copy(thermo=THERMOS[int(t[2])]), 'copy'); emit(f'new {pkg_id(w.objs[-1].thermo)}', f'ok {len(w.objs) - 1}')
             elif op == 'flowproxy':
-                w.add(w.objs[int(t[1])].flow_proxy(), 'flowproxy'); emit('new', f'ok {len(w.objs) - 1}')
+                w.add(w.objs[int(t[1])].flow_proxy(), 'flowproxy'); emit(f'new {pkg_id(w.objs[-1].thermo)}', f'ok {len(w.objs) - 1}')
             elif op == 'proxy':
                 w.add(w.objs[int(t[1])].proxy(), 'proxy'); w.proxied.add(int(t[1]))
                 emit(f'proxy {t[1]}', f'ok {len(w.objs) - 1}')
@@ -243,9 +274,26 @@ def run_ops(ops):
                     _REC = None
                 for ml, ans in rec.lines:
                     emit(ml, ans)
-                    if ans == 'hit': hits += 1
+                    if ans.startswith('hit'): hits += 1
+                if s.thermo.chemicals is not s.imol.chemicals:
+                    # the stream's package and its flow indexer are out of step: a proxy (or flow-linked stream) whose
+                    # partner changed package re-keyed the shared indexer (DESIGN §12.7, C12-8).  "A fresh stream with
+                    # the same flows" is undefined for such an object; not C14's concern.
+                    illformed.append(1)
+                    continue
                 if err is not None:
-                    continue          # the property models reject this state (e.g. no Hvap model): nothing to compare
+                    # the read raised.  Legitimate when the property models reject this state (e.g. no Hvap model
+                    # for the phase): then a freshly created stream in the same state raises as well.  If the fresh
+                    # stream answers, the raise is the stream's own (memo) doing.
+                    try:
+                        ref = getattr(fresh_like(s), attr); fresh_ok = True
+                    except Exception:
+                        fresh_ok = False
+                    if fresh_ok:
+                        failures.append({'signature': f'raises:{type(err).__name__}:after-{w.last_mut[0]}', 'op_index': len(model_in) - 1,
+                                         'what': f'reading `{attr}` raised {type(err).__name__}: {err} but a fresh stream in the '
+                                                 f'same state gives {ref!r} (object kind {w.kind[o]}, last mutation {w.last_mut[0]})'})
+                    continue
                 if isinstance(s, tmo.MultiStream) and len(s.phases) != s.imol.data.shape[0]:
                     continue          # phase labels and flow rows out of step (data shared with a stream of other
                                       # phases): "the same flows and phases" is undefined; C13's concern, not C14's
@@ -294,6 +342,10 @@ def run_ops(ops):
                         for k in [k for k in w.views if k[0] == id(s)]: del w.views[k]
                 elif op == 'setphases':
                     ps = tuple(t[2])
+                    held = [ph for ph in s.phases if s.imol[ph].any()] if isinstance(s, tmo.MultiStream) else [s.phase]
+                    if not all(ph in ps or ph.lower() in ps or ph.upper() in ps for ph in held):
+                        _REC = None
+                        continue    # the library rejects a phase set that drops a non-empty phase: not a mutation
                     if isinstance(s, tmo.MultiStream):
                         if len(set(ps)) == 1:
                             mk = 'collapse'
@@ -303,9 +355,38 @@ def run_ops(ops):
                         mk = 'rebind'       # single -> multi: a new, empty `_streams` dict is bound
                     s.phases = ps
                 elif op == 'setflow':
-                    s.imol.data[int(t[2]) % s.imol.data.shape[-1]] = float(t[3]) if s.imol.data.ndim == 1 else float(t[3])
+                    d = s.imol.data; j = int(t[2]); n = d.shape[-1]
+                    if d.ndim == 1: d[j % n] = float(t[3])
+                    else: d[(j // n) % d.shape[0], j % n] = float(t[3])
                 elif op == 'setflowkey':
-                    s.imol[t[2]] = float(t[3])
+                    if isinstance(s, tmo.MultiStream): s.imol[s.phases[int(t[4]) % len(s.phases)], t[2]] = float(t[3])
+                    else: s.imol[t[2]] = float(t[3])
+                elif op == 'nudge':
+                    # the smallest changes of state: the memo key must see them
+                    what, rel = t[2], float(t[3])
+                    if what == 'T': s.T = s.T + rel
+                    elif what == 'P': s.P = s.P * (1 + rel)
+                    else:
+                        d = s.imol.data; j = int(what); n = d.shape[-1]
+                        if d.ndim == 1: d[j % n] = d[j % n] * (1 + rel)
+                        else: d[(j // n) % d.shape[0], j % n] = d[(j // n) % d.shape[0], j % n] * (1 + rel)
+                elif op == 'copylike': s.copy_like(w.objs[int(t[2])])
+                elif op == 'copyflow': s.copy_flow(w.objs[int(t[2])])
+                elif op == 'copytc': s.copy_thermal_condition(w.objs[int(t[2])])
+                elif op == 'setmass': s.imass[t[2]] = float(t[3])
+                elif op == 'settotal': s.set_total_flow(float(t[2]), t[3])
+                elif op == 'splitto':
+                    a, b = w.objs[int(t[2])], w.objs[int(t[3])]
+                    if a is b or a is s or b is s or isinstance(s, tmo.MultiStream) != isinstance(a, tmo.MultiStream) \
+                            or isinstance(s, tmo.MultiStream) != isinstance(b, tmo.MultiStream):
+                        _REC = None
+                        continue
+                    s.split_to(a, b, float(t[4]), energy_balance=False)
+                elif op == 'vle':
+                    if not (isinstance(s, tmo.MultiStream) and 'l' in s.phases and 'g' in s.phases and set(s.phases) <= set('lg')):
+                        _REC = None
+                        continue
+                    s.vle(T=float(t[2]), P=float(t[3]))
                 elif op == 'scale': s.scale(float(t[2]))
                 elif op == 'empty': s.empty()
                 elif op == 'mix':
@@ -313,15 +394,21 @@ def run_ops(ops):
                     s.mix_from([a, b], energy_balance=False)
                 elif op == 'link':
                     other = w.objs[int(t[2])]
+                    if isinstance(s, tmo.MultiStream) != isinstance(other, tmo.MultiStream):
+                        _REC = None
+                        continue    # rejected by the library (different classes): not a mutation
                     if isinstance(s, tmo.MultiStream) and isinstance(other, tmo.MultiStream) \
                             and tuple(s.phases) != tuple(other.phases):
                         continue    # linking multi-phase streams with different phase sets is outside the property
+                    if s.imol.chemicals is not other.imol.chemicals or s.thermo.chemicals is not s.imol.chemicals \
+                            or other.thermo.chemicals is not other.imol.chemicals:
+                        continue    # sharing flow data between different property packages is meaningless
                     s.link_with(w.objs[int(t[2])], flow=t[3] == '1', phase=t[4] == '1', TP=t[5] == '1')
                 elif op == 'unlink':
                     s.unlink(); mk = 'resets'
                 elif op == 'thermo':
                     th = THERMOS[int(t[2])]
-                    mk = 'resets' if th is not s.thermo else 'state'
+                    mk = f'thermo {int(t[2])}'
                     s._reset_thermo(th)
                 elif op == 'viewflow':
                     ph = t[2]
@@ -344,13 +431,16 @@ def run_ops(ops):
             # memo and then fails on a stale phase view), so what the memo looks like afterwards is
             # unknown to the model: the history ends here.
             _REC = None
+            trunc.append(f'history:cut-at:{op}:{type(e).__name__}')
             break
     return model_in, outs, failures, hits, changes
 
 
 def run_impl(case: Case) -> ImplResult:
     model_in, outs, failures, hits, changes = run_ops(case.ops)
-    tags = sorted({l.split(' ')[0] for l in case.ops}) + sorted({'ans:' + o.split(' ')[0] for o in outs})
+    tags = sorted({l.split(' ')[0] for l in case.ops}) + sorted({'ans:' + o.split(' ')[0] for o in outs}) + list(_TRUNC)
+    tags.append('history:complete' if not _TRUNC else 'history:cut')
+    if _ILL: tags.append('skip:package-and-indexer-out-of-step')
     return ImplResult(model_in=model_in, outs=outs, failures=failures, tags=tags,
                       nontrivial=(tuple(case.ops) if hits and changes else None))
 
@@ -415,13 +505,36 @@ def gen_case(rng, length):
             ps = rng.choice(['lg', 'gl', 'lLg', 'l', 'g', 'ls'])
             ops.append(f'setphases {o} {ps}')
             if kinds[o] != 'view': kinds[o] = 'multi' if len(set(ps)) > 1 else 'single'
-        elif r < 0.68: ops.append(f'setflow {o} {rng.randrange(4)} {rng.choice([0, 1, 2.5, 4, 8])}')
-        elif r < 0.71: ops.append(f'setflowkey {o} {rng.choice(["Water", "Ethanol", "Methanol"])} {rng.choice([0, 1.5, 6])}')
+        elif r < 0.66: ops.append(f'setflow {o} {rng.randrange(12)} {rng.choice([0, 1, 2.5, 4, 8])}')
+        elif r < 0.68:
+            what = rng.choice(['T', 'T', 'P', str(rng.randrange(12)), str(rng.randrange(12))])
+            ops.append(f'nudge {o} {what} {rng.choice([1e-6, 1e-3, -1e-4, 1e-9, 1e-12]) if what == "T" else rng.choice([1e-9, 1e-6, -1e-7, 1e-12])}')
+        elif r < 0.70: ops.append(f'setflowkey {o} {rng.choice(["Water", "Ethanol", "Methanol"])} {rng.choice([0, 1.5, 6])} {rng.randrange(3)}')
+        elif r < 0.71:
+            k = rng.random()
+            if k < 0.3: ops.append(f'setmass {o} {rng.choice(["Water", "Ethanol"])} {rng.choice([0, 18.0, 92.5])}')
+            elif k < 0.6: ops.append(f'settotal {o} {rng.choice([1.0, 12.5, 300.0])} {rng.choice(["kmol/hr", "kg/hr"])}')
+            else: ops.append(f'vle {o} {rng.choice([350.0, 360.0, 370.5])} {rng.choice(PS)}')
         elif r < 0.75: ops.append(f'scale {o} {rng.choice([2, 0.5, 3, 1])}')
         elif r < 0.765: ops.append(f'empty {o}')
         elif r < 0.79 and len(kinds) >= 2:
             a, b = rng.randrange(len(kinds)), rng.randrange(len(kinds))
-            ops.append(f'mix {o} {a} {b}')
+            k = rng.random()
+            if k < 0.45: ops.append(f'mix {o} {a} {b}')
+            elif k < 0.65: ops.append(f'copylike {o} {a}')
+            elif k < 0.78: ops.append(f'copyflow {o} {a}')
+            elif k < 0.9: ops.append(f'copytc {o} {a}')
+            else: ops.append(f'splitto {o} {a} {b} {rng.choice([0.25, 0.5, 0.8])}')
+            if k >= 0.45 and last_read and rng.random() < 0.6:
+                ops.append(f'read {o} {last_read[1]}')
+            if 0.45 <= k < 0.9 and rng.random() < 0.5:
+                # the sharing probe: after `o` took over (part of) the state of `a`, change one of the two, read a
+                # property on it and then the same property on the other (a memo shared by accident shows here)
+                at = rng.choice(ATTRS_MULTI if 'multi' in (kinds[o], kinds[a]) else ATTRS_SINGLE)
+                x, y = (o, a) if rng.random() < 0.5 else (a, o)
+                ops.append(f'read {y} {at}')
+                ops.append(rng.choice([f'setT {x} {rng.choice(TS)}', f'setP {x} {rng.choice(PS)}', f'scale {x} 2', f'nudge {x} T 1e-3']))
+                ops.append(f'read {x} {at}'); ops.append(f'read {y} {at}')
         elif r < 0.83 and len(kinds) < 5:
             ops.append(f'proxy {o}'); kinds.append(kinds[o])
         elif r < 0.86 and len(kinds) < 5:
